@@ -23,7 +23,8 @@ def main(tier):
             "rejected at every expression position (R-FILTERCOVER); grammar handlers match their productions "
             "(R-HANDLER); first-contact attribute code guards every oneof alternative and does not assert on "
             "unverified input (R-VALIDATORGUARD, R-FIRSTCONTACT-ASSERT); IR nodes never stand in for file names and "
-            "literal format strings are fully supplied (R-STRROLE, R-FORMATARITY); passes return lists on every path "
+            "literal format strings are fully supplied (R-STRROLE, R-FORMATARITY); code that inspects a parse error's token reads "
+            "only fields that both real tokens and the end-of-input marker have, or guards the access (R-TOKENSHAPE); passes return lists on every path "
             "and the pipeline splits, early-exits and defers errors (R-PASSRET, R-PIPE). "
             "Not decided: absence of every other exception on arbitrary text."),
         assumptions=["call resolution is by module/name (no dynamic dispatch on the compile path besides the "
@@ -42,4 +43,5 @@ def main(tier):
     chk.run("R-FORMATARITY", S.formatarity, r, floor=100, control=lambda: sctl)
     chk.run("R-PASSRET", P.passret, r, floor=12, control=lambda: P.control_passret(r))
     chk.run("R-PIPE", P.pipe, r, floor=12, control=lambda: P.control_pipe(r))
+    chk.run("R-TOKENSHAPE", S.tokenshape, r, floor=3)
     return chk.finish()
